@@ -24,6 +24,15 @@ CLAIMS = {
     "C19": dict(tech=TECH, ref="§5-C19",
                 text="Proof: the fold model of run_stat is proved equal to declarative definitions (counts, primary-only reads/bases, per-read maxima as exact rationals, CIGAR run counts, >=50 threshold, perfect alignments) and invariant under every permutation of the records, averages included. Correspondence: real run_stat on generated files (tp P/p/S/I/absent, MAPQ 0.., several records per read, plain/BGZF, each file also shuffled); printed averages must be correct 3-decimal roundings of the exact values.",
                 note=BASE + "IEEE floats and round() are modelled by exact rationals (not verified); hypothesis: at least one primary record (the tool divides by the number of reads). parse_gaf_line is C16's model."),
+    "C15": dict(tech=TECH, ref="§5-C15",
+                text="Proof (full): all_components returns the partition of the node set into reachability classes (findComp_exact with the shared visited flags, components_partition); dfs visits exactly the start node's class, once each, starting at the start node; every loaded graph has a symmetric, closed neighbour relation; after every history of add-node/add-link/delete-node the graph equals the one built from the surviving nodes and links, adjacency symmetric, nothing dangling (history_eq_build, history_symmetric, history_no_dangling). biccs: the full exactness statement (BiccExact) is kept visible but NOT proved; what decides it here is the executable definition-level checker (articulation point = removal disconnects, proved equivalent in isCut_iff; blocks = classes of links no single node removal separates) evaluated on the real biccs output for random graphs and exhaustively on all simple graphs <= 4 (thorough: 5) nodes and all small multigraphs <= 3 nodes.",
+                note=BASE + "biccs exactness is sampled/exhaustive-small-scope, not a theorem (labelled partial); the characterisation of blocks by single-node separation is the textbook definition taken as specification. Histories only use calls that do not raise. edge_tags of deleted nodes are not part of the observation (adjacency)."),
+    "C16": dict(tech=TECH, ref="§5-C16",
+                text="Proof: for every well-formed record (canonical decimals, SAM-grammar optional fields, ASCII) print(parse(line)) reproduces the read name cut at its first space, columns 2-12 verbatim (decimal print/parse round trip proved), every optional field verbatim and in order with only ds:Z: dropped, provided no TAG:TYPE repeats (print_parse, print_parse_line); no optional field is ever invented (no_invented_field, also with repeats; in particular no cg:Z: for a record without CIGAR); with repeated tags the behaviour is exactly the recorded known finding K1 (print_parse_K1). Correspondence: real parse_gaf_line+__str__, view -n and view -f stable on generated records over the whole tag grammar, plus repeated-tag and malformed streams.",
+                note=BASE + "Known finding K1 (repeated TAG:TYPE emitted once) is reported as KNOWN-FINDING, any other deviation on such records is a violation. Python re/str semantics as modelled in Model/Gaf.lean (ASCII). The realign route is covered by C12's check."),
+    "C20": dict(tech=TECH, ref="§5-C20",
+                text="Proof: phase writes one record per input record in order (phase_lines); each output record is the input's twelve columns (strand included) followed by ps:Z/ht:Z carrying the values of the FIRST TSV line naming the read ('none' when absent or unphased) followed by the input's optional fields (phase_record, lookup_first); the output is again a well-formed GAF line (phase_wellformed). Correspondence: real add_phase_info on generated GAFs (both strands, stable/unstable paths, all tag shapes, plain/BGZF) x TSVs with H1/H2/none/missing/duplicated reads.",
+                note=BASE + "phase_wellformed carries the hypothesis that the last kept optional field does not end in a blank (the counterexample without it is in the file). Records without repeated tags (K1 of C16). TSV lines have >= 4 columns."),
 }
 
 IN_PROGRESS = "check under construction in this round; not claimed until its proofs and correspondence run green"
